@@ -35,3 +35,18 @@ func runConcrete(srcs []string) int {
 	}
 	return rc
 }
+
+// tokenTable runs the repo's real parser.tokenTypes() in the engine and returns "id\tpattern" rows.
+func tokenTable() []string {
+	l := load()
+	eng := newEngine(l)
+	f := l.fn("parser.VH_C17_table")
+	if _, err := eng.Call(f.Pkg.Func("init")); err != nil {
+		fatal("init: %v", err)
+	}
+	r, err := eng.Call(f)
+	if err != nil {
+		fatal("token table: %v", err)
+	}
+	return eng.Strings(r)
+}
